@@ -9,7 +9,18 @@ use crate::stream::{
     },
     TransportFeatures,
 };
+#[cfg(all(test, aws_s2n_quic_verif, aws_s2n_quic_verif_loom))]
+use self::verif_loommc::AtomicWaker;
+#[cfg(all(test, aws_s2n_quic_verif, aws_s2n_quic_verif_loom))]
+use ::loom::sync::atomic::{AtomicU64, Ordering};
+#[cfg(not(all(test, aws_s2n_quic_verif, aws_s2n_quic_verif_loom)))]
 use atomic_waker::AtomicWaker;
+#[cfg(all(test, aws_s2n_quic_verif, aws_s2n_quic_verif_loom))]
+use core::{
+    fmt,
+    task::{Context, Poll},
+};
+#[cfg(not(all(test, aws_s2n_quic_verif, aws_s2n_quic_verif_loom)))]
 use core::{
     fmt,
     sync::atomic::{AtomicU64, Ordering},
@@ -341,3 +352,7 @@ mod tests {
             })
     }
 }
+
+#[cfg(all(test, aws_s2n_quic_verif, aws_s2n_quic_verif_loom))]
+#[path = "/verif/engines/loommc/dc_flow.rs"]
+mod verif_loommc;
